@@ -114,7 +114,17 @@ static inline void x_find_range_fill(C& c, const Ev* e, size_t n, bool pk, Res* 
 #else
     Rng<std::pair<uint64_t, bool>, RMAX> r;
 #endif
-    for (size_t i = 0; i < n; ++i) { r.a[i].first = e[i].k; }
+    // The caller's slots need not be empty: element i arrives pre-filled with e[i].v (ut_set: true) when bit 0 of e[i].a is
+    // set (a container re-used from an earlier poll) and empty otherwise; either way the call must overwrite it.
+    for (size_t i = 0; i < n; ++i)
+    {
+        r.a[i].first = e[i].k;
+#if T_VALUE
+        if (e[i].a & 1) r.a[i].second = VAL_T(e[i].v);
+#else
+        r.a[i].second = (e[i].a & 1) != 0;
+#endif
+    }
     r.n = n;
 #if T_ITER_FORMS
     if (X_IT) c.find_range_fill(r.begin(), r.end());
